@@ -71,19 +71,41 @@ def cases(rng, tier):
     ncand = 4000 if tier == "quick" else 60000
     kmax = 40 if tier == "quick" else 120
     cand = []
-    for _ in range(ncand):
-        k = CG.small_k(rng, kmax)
-        h = rng.choice([0, 0, 0, 1])
-        esis = rng.shuffle(CG.block_esis(rng, k, h, rng.choice([0.0, 0.1, 0.5, 0.9])))
+    for n in range(ncand):
+        if n % 3 == 0:
+            # repair-only receptions of small blocks: every row of V is heavy, so the first phase goes through its
+            # r >= 3 steps (original-degree scan, column swaps into U), which ordinary receptions never reach
+            k = rng.choice([3, 4, 5, 6, 7, 8, 9, 10, 11, 12, 13, 18, 20, 26])
+            esis = rng.shuffle(CG.block_esis(rng, k, rng.choice([0, 0, 1]), 0.0))
+        else:
+            k = CG.small_k(rng, kmax)
+            h = rng.choice([0, 0, 0, 1])
+            esis = rng.shuffle(CG.block_esis(rng, k, h, rng.choice([0.0, 0.1, 0.5, 0.9])))
         cand.append((k, rng.choice([0, 1, 251]), esis))
+    # receptions of heavy symbols only (LT degree >= 3 / 4 / 6): the first phase's r >= 3 and r >= 4 steps
+    for _ in range(300 if tier == "quick" else 6000):
+        k = rng.choice([10, 12, 18, 20, 26])
+        esis = CG.heavy_esis(rng, k, rng.choice([3, 4, 4, 6, 6]), rng.choice([0, 0, 1]))
+        if esis is not None:
+            cand.append((k, rng.choice([0, 1, 251]), esis))
     screen = [mk(rng, k, 1, thr, esis, [(7 * i + 1) % 256 for i in range(k)], one_by_one=False) for (k, thr, esis) in cand]
     res = C.run_impl(screen, "release")
+    # the screening run is itself judged: a panic on the encoder's own packets, or an answer that is not the block
+    cases.screen_bad = []
+    for sc, (k, thr, esis), r in zip(screen, cand, res):
+        t = r.split()
+        want = [(7 * i + 1) % 256 for i in range(k)]
+        if t[0] != "1":
+            cases.screen_bad.append({"input": sc.impl_line()[:700], "expected": "None or the block", "observed": "panic: " + r[:60], "oracle": "decoder never panics on a received set"})
+        elif t[1] == "1" and [int(x) for x in t[2:]] != want:
+            cases.screen_bad.append({"input": sc.impl_line()[:700], "expected": "the block " + str(want[:12]), "observed": " ".join(t[2:14]), "oracle": "never answers with anything but the block"})
     refused = [c for c, r in zip(cand, res) if r.split()[:2] == ["1", "0"]]
     accepted = [c for c, r in zip(cand, res) if r.split()[:2] == ["1", "1"]]
     cases.screen = {"candidates": len(cand), "refused_by_impl": len(refused), "accepted_by_impl": len(accepted)}
     chosen = list(refused)
     chosen += accepted[: max(len(refused), 40 if tier == "quick" else 400)]
     chosen += [rng.choice(cand) for _ in range(40 if tier == "quick" else 400)]
+    chosen += cand[-(60 if tier == "quick" else 600):]  # heavy-symbol receptions: also compared op by op with the solver model
     # mutate refused sets by one symbol (stay near the rank boundary)
     for (k, thr, esis) in refused[: 60 if tier == "quick" else 600]:
         e2 = list(esis)
@@ -118,7 +140,7 @@ def evaluate(cs, rep, tier):
     # the solver itself: exact operation lists (and Some/None) of pi_solver.rs on the dense back-end vs its model
     s_impl, s_model, s_dis = G.diff_impl_model(solver, PROFILES, "solver-oplist")
     dis = dis + s_dis
-    counter = []
+    counter = list(getattr(cases, "screen_bad", []))[:5]
     deficient = full = 0
     for c, i, m in zip(cs, impl, model):
         k, nb = c.args[0], c.args[5]
